@@ -188,6 +188,15 @@ def gen_spec(rnd, gt, profile="mixed"):
         if code and rnd.random() < 0.7:
             m["entry_point"] = rnd.choice(code)
         spec["modules"].append(m)
+    # an entry point may also be a code block of another module of the IR
+    # (earlier or later in module order)
+    allcode = [b["uuid"] for m in spec["modules"] for s in m["sections"]
+               for bi in s["intervals"] for b in bi["blocks"]
+               if b["kind"] == "code"]
+    if allcode and len(spec["modules"]) > 1:
+        for m in spec["modules"]:
+            if rnd.random() < 0.2:
+                m["entry_point"] = rnd.choice(allcode)
     cfg_nodes = [b["uuid"] for m in spec["modules"] for s in m["sections"]
                  for bi in s["intervals"] for b in bi["blocks"]
                  if b["kind"] == "code"] + \
@@ -360,6 +369,10 @@ def boundary_classes(spec):
                 out.add("module:negative-rebase")
             if n["entry_point"]:
                 out.add("module:entry")
+                own = {b["uuid"] for s_ in n["sections"]
+                       for bi in s_["intervals"] for b in bi["blocks"]}
+                if n["entry_point"] not in own:
+                    out.add("module:entry-in-other-module")
             out.add("isa:" + n["isa"])
             out.add("format:" + n["file_format"])
             out.add("order:" + n["byte_order"])
